@@ -295,6 +295,10 @@ func runC14(r *vf.Run) {
 		return
 	}
 	cols := ds.ColNames()
+	// gbc: the group-by column of the hostile requests. What it groups by is irrelevant to them, but a column with a
+	// thousand values costs a thousand lookups per request (at some seeds the first column is such a column and the
+	// quick tier took a quarter of an hour)
+	gbc := "lc3"
 	probeE := oracle.Eq(cols[0], ds.Vals[cols[0]][0])
 	probeWant := oracle.Eval(ds.Rows, ds.Cols, probeE, nil).Count
 	// well-formed probes with known answers (leaf, NOT, AND/OR, group-by), used in rotation after every hostile request
@@ -354,10 +358,10 @@ func runC14(r *vf.Run) {
 	}
 	// 1. structural omission sweep: singles and pairs
 	for si, seed := range seeds {
-		base := &pb.Query{Expr: seed.ToProto(), GroupBy: []string{cols[0]}}
+		base := &pb.Query{Expr: seed.ToProto(), GroupBy: []string{gbc}}
 		var nodes []*pb.Query_Expression
 		exprNodes(base.Expr, &nodes)
-		addMsg(fmt.Sprintf("omit/s%d/no-expr", si), "omission-single", &pb.QueryRequest{Queries: []*pb.Query{{GroupBy: []string{cols[0]}}}})
+		addMsg(fmt.Sprintf("omit/s%d/no-expr", si), "omission-single", &pb.QueryRequest{Queries: []*pb.Query{{GroupBy: []string{gbc}}}})
 		for p1 := range nodes {
 			for _, k1 := range omissionKinds {
 				q := proto.Clone(base).(*pb.Query)
@@ -404,10 +408,10 @@ func runC14(r *vf.Run) {
 		addMsg("many/5000-queries", "many-queries", many)
 		neg := &pb.QueryRequest{}
 		for i := 0; i < 40; i++ {
-			neg.Queries = append(neg.Queries, &pb.Query{Id: int32(-i * 1000003), Expr: b.ToProto(), GroupBy: []string{cols[0], cols[0], cols[0], cols[0], cols[0], cols[0]}})
+			neg.Queries = append(neg.Queries, &pb.Query{Id: int32(-i * 1000003), Expr: b.ToProto(), GroupBy: []string{gbc, gbc, gbc, gbc, gbc, gbc}})
 		}
 		addMsg("many/negative-ids-repeated-groupby", "many-queries", neg)
-		gbs := &pb.QueryRequest{Queries: []*pb.Query{{Expr: a.ToProto(), GroupBy: make([]string, 3000)}, {Expr: a.ToProto(), GroupBy: []string{"", cols[0], ""}}}}
+		gbs := &pb.QueryRequest{Queries: []*pb.Query{{Expr: a.ToProto(), GroupBy: make([]string, 3000)}, {Expr: a.ToProto(), GroupBy: []string{"", gbc, ""}}}}
 		addMsg("many/3000-empty-groupby-columns", "many-queries", gbs)
 	}
 	// 2c. operators with every operand count up to 140 and around powers of two (fixed-size buffers somewhere?)
@@ -427,14 +431,14 @@ func runC14(r *vf.Run) {
 			} else {
 				pe = e.ToProto()
 			}
-			addMsg(fmt.Sprintf("arity/%c%d", op, n), "operand-count", &pb.QueryRequest{Queries: []*pb.Query{{Expr: pe}, {Expr: &pb.Query_Expression{Value: &pb.Query_Expression_Not_{Not: &pb.Query_Expression_Not{Expr: pe}}}, GroupBy: []string{cols[0]}}}})
+			addMsg(fmt.Sprintf("arity/%c%d", op, n), "operand-count", &pb.QueryRequest{Queries: []*pb.Query{{Expr: pe}, {Expr: &pb.Query_Expression{Value: &pb.Query_Expression_Not_{Not: &pb.Query_Expression_Not{Expr: pe}}}, GroupBy: []string{gbc}}}})
 		}
 	}
 	// 2d. complete, evaluable expressions whose group-by list names unknown columns (the request fails as a whole;
 	// what it leaves behind must not disturb the group-by probes that follow)
-	for i, gb := range [][]string{{"nosuch"}, {cols[0], "nosuch"}, {""}, {"nosuch", cols[0]}, {cols[0], cols[0], "NOSUCH"}} {
+	for i, gb := range [][]string{{"nosuch"}, {gbc, "nosuch"}, {""}, {"nosuch", gbc}, {gbc, gbc, "NOSUCH"}} {
 		addMsg(fmt.Sprintf("unknown-groupby/%d", i), "unknown-groupby", &pb.QueryRequest{Queries: []*pb.Query{{Expr: a.ToProto(), GroupBy: gb}}})
-		addMsg(fmt.Sprintf("unknown-groupby/%d-second", i), "unknown-groupby", &pb.QueryRequest{Queries: []*pb.Query{{Expr: b.ToProto(), GroupBy: []string{cols[0]}}, {Expr: oracle.Not(a).ToProto(), GroupBy: gb}}})
+		addMsg(fmt.Sprintf("unknown-groupby/%d-second", i), "unknown-groupby", &pb.QueryRequest{Queries: []*pb.Query{{Expr: b.ToProto(), GroupBy: []string{gbc}}, {Expr: oracle.Not(a).ToProto(), GroupBy: gb}}})
 	}
 	// 2e. long group-by lists naming the same one or two low-cardinality columns again and again (cheap to evaluate: the
 	// groups do not multiply; whatever is sized by the product of the value counts overflows)
@@ -477,9 +481,9 @@ func runC14(r *vf.Run) {
 				case 0:
 					addMsg(id+"/group-by", "long-name", &pb.QueryRequest{Queries: []*pb.Query{{Expr: a.ToProto(), GroupBy: []string{name}}}})
 				case 1:
-					addMsg(id+"/column", "long-name", &pb.QueryRequest{Queries: []*pb.Query{{Expr: oracle.Eq(name, "x").ToProto(), GroupBy: []string{cols[0], name}}}})
+					addMsg(id+"/column", "long-name", &pb.QueryRequest{Queries: []*pb.Query{{Expr: oracle.Eq(name, "x").ToProto(), GroupBy: []string{gbc, name}}}})
 				default:
-					addMsg(id+"/value", "long-name", &pb.QueryRequest{Queries: []*pb.Query{{Expr: oracle.And(a, oracle.Not(oracle.Eq(cols[0], name))).ToProto(), GroupBy: []string{name + "z"}}}})
+					addMsg(id+"/value", "long-name", &pb.QueryRequest{Queries: []*pb.Query{{Expr: oracle.And(a, oracle.Not(oracle.Eq(gbc, name))).ToProto(), GroupBy: []string{name + "z"}}}})
 				}
 			}
 		}
@@ -497,11 +501,11 @@ func runC14(r *vf.Run) {
 		}
 		var many []*pb.Query
 		for i := 0; i < 10000; i++ {
-			many = append(many, &pb.Query{Id: int32(i + 1), Expr: []*oracle.Expr{a, b, c}[i%3].ToProto(), GroupBy: []string{cols[0]}})
+			many = append(many, &pb.Query{Id: int32(i + 1), Expr: []*oracle.Expr{a, b, c}[i%3].ToProto(), GroupBy: []string{gbc}})
 		}
 		slow := map[string][]*pb.Query{"deep-chain": {{Expr: deep}}, "wide-or": {{Expr: wide.ToProto()}}, "ten-thousand-members": many}
 		bad := map[string]*pb.Query{
-			"no-expr":             {GroupBy: []string{cols[0]}},
+			"no-expr":             {GroupBy: []string{gbc}},
 			"not-without-operand": {Expr: &pb.Query_Expression{Value: &pb.Query_Expression_Not_{Not: &pb.Query_Expression_Not{}}}},
 			"empty-expression":    {Expr: &pb.Query_Expression{}},
 			"eq-unset-inside-and": {Expr: &pb.Query_Expression{Value: &pb.Query_Expression_And_{And: &pb.Query_Expression_And{Exprs: []*pb.Query_Expression{a.ToProto(), {}}}}}},
@@ -558,7 +562,7 @@ func runC14(r *vf.Run) {
 						} else {
 							pe = &pb.Query_Expression{Value: &pb.Query_Expression_Or_{Or: &pb.Query_Expression_Or{Exprs: ops}}}
 						}
-						addMsg(fmt.Sprintf("wide-failing/n%d/f%d/d%d/r%d", n, fails, depth, rep), "wide-operator-with-failing-operands", &pb.QueryRequest{Queries: []*pb.Query{{Expr: pe, GroupBy: []string{cols[0]}}}})
+						addMsg(fmt.Sprintf("wide-failing/n%d/f%d/d%d/r%d", n, fails, depth, rep), "wide-operator-with-failing-operands", &pb.QueryRequest{Queries: []*pb.Query{{Expr: pe, GroupBy: []string{gbc}}}})
 					}
 				}
 			}
@@ -631,7 +635,7 @@ func runC14(r *vf.Run) {
 	nraw := r.Pick(1500, 20000)
 	var valids [][]byte
 	for _, s := range seeds {
-		bts, _ := proto.Marshal(&pb.QueryRequest{Queries: []*pb.Query{{Id: 3, Expr: s.ToProto(), GroupBy: []string{cols[0]}}, {Expr: a.ToProto()}}})
+		bts, _ := proto.Marshal(&pb.QueryRequest{Queries: []*pb.Query{{Id: 3, Expr: s.ToProto(), GroupBy: []string{gbc}}, {Expr: a.ToProto()}}})
 		valids = append(valids, bts)
 	}
 	for i := 0; i < nraw; i++ {
